@@ -198,6 +198,21 @@ Definition init {W} (w : W) : conn W := mk_conn [] 1 0 1 w.
 Definition exec {W} (eff : svc -> Z -> Z -> W -> W) (h : list op) (c : conn W) : conn W :=
   fold_left (fun c o => fst (step eff c o)) h c.
 
+(* ---- the statement's vocabulary (used by the theorems in Props/C19.v) ---------------------- *)
+Definition timed_out_P (now : Z) (s : session) : Prop :=
+  0 < s_timeout s /\ s_timeout s < now - s_last s.
+(* the token belongs to a session of the connection *)
+Definition resolves {W} (c : conn W) (t : Z) : Prop :=
+  exists s, In s (sessions c) /\ s_tok s = t.
+(* ... that is activated, bound to the connection's current secure channel, and not timed out *)
+Definition authorised {W} (c : conn W) (t : Z) : Prop :=
+  exists s, In s (sessions c) /\ s_tok s = t /\ s_act s = true /\ s_chan s = chan_now c /\
+            ~ timed_out_P (clock c) s.
+(* what a request may not change when it is refused: which tokens exist, which are activated,
+   which channel each is bound to (and the rest of the server, [world]) *)
+Definition binding (s : session) : Z * bool * Z := (s_tok s, s_act s, s_chan s).
+Definition bindings {W} (c : conn W) : list (Z * bool * Z) := map binding (sessions c).
+
 (* ---- correspondence interface ------------------------------------------------------------ *)
 (* the harness's services: Write sets a variable, CreateSubscription adds a subscription to the
    calling session, everything else is sent with nothing to do *)
